@@ -193,6 +193,9 @@ pub struct CodegenContext {
 
     next_macro_scope_id: usize,
 
+    /// The files whose tokens are being emitted right now because of an import (innermost last)
+    import_stack: Vec<String>,
+
     test_elements: Vec<TestElement>,
 
     source_map: SourceMap,
@@ -240,6 +243,7 @@ impl CodegenContext {
             current_scope: IdentifierPath::empty(),
             current_scope_nx: SymbolIndex::new(0),
             next_macro_scope_id: 0,
+            import_stack: vec![],
             test_elements: vec![],
             source_map: SourceMap::default(),
         }
@@ -734,6 +738,20 @@ impl CodegenContext {
                 ..
             } => {
                 if let Some(imported_file) = self.tree.try_get_file(resolved_path) {
+                    // A file that (indirectly) imports itself would be emitted without end
+                    let imported_name = imported_file.file.name().to_string();
+                    if imported_name == self.tree.main_file().file.name()
+                        || self.import_stack.contains(&imported_name)
+                    {
+                        return Err(Diagnostic::error()
+                            .with_message(format!(
+                                "cyclic import: \"{}\" is already being imported",
+                                resolved_path.to_string_lossy()
+                            ))
+                            .with_labels(vec![filename.span().to_label()])
+                            .into());
+                    }
+
                     let imported_file_tokens = imported_file.tokens.clone();
 
                     // Make the filename a definition by itself, allowing the user to follow the definition
@@ -751,13 +769,16 @@ impl CodegenContext {
                         span: filename.span(),
                     });
 
-                    self.with_scope(import_scope, block.as_ref(), |s| {
+                    self.import_stack.push(imported_name);
+                    let result = self.with_scope(import_scope, block.as_ref(), |s| {
                         if let Some(block) = block {
                             s.emit_tokens(&block.inner)?;
                         }
 
                         s.emit_tokens(&imported_file_tokens)
-                    })?;
+                    });
+                    self.import_stack.pop();
+                    result?;
 
                     if let Some(import_nx) =
                         self.symbols.try_index(self.current_scope_nx, import_scope)
